@@ -66,14 +66,44 @@ EffLimit(limit) == IF limit = NoLimit \/ limit > MaxSearchLimit THEN MaxSearchLi
 PageFirst(full, limit) == Take(full, EffLimit(limit))
 PageLast(full, limit)  == TakeLast(full, EffLimit(limit))
 
-(* search_ids with a filter: relevance-ordered candidates restricted to    *)
-(* the match set, head kept.                                               *)
+(* search_ids: each search index is asked for top_k = min(10 * limit, 4096) candidates, the ranked   *)
+(* lists are merged by reciprocal rank fusion (score = sum over lists of 1/(60 + position),          *)
+(* ties by ascending id), and a filter RESTRICTS that candidate list to its match set; the head is   *)
+(* kept.  rank / trank are the positions of a document in the vector / text ranking (trank 0 = the   *)
+(* document has no text).                                                                             *)
 EffSearchLimit(limit) ==
   IF limit = NoLimit THEN DefaultSearchLimit
   ELSE IF limit > MaxSearchLimit THEN MaxSearchLimit ELSE limit
-Candidates(pop) == SetToSortSeq(Live(pop), LAMBDA x, y : pop[x].rank < pop[y].rank)
+TopK(limit) == LET k == 10 * EffSearchLimit(limit) IN IF k > 4096 THEN 4096 ELSE k
+VecOrder(pop) == SetToSortSeq(Live(pop), LAMBDA x, y : pop[x].rank < pop[y].rank)
+TxtOrder(pop) == SetToSortSeq({id \in Live(pop) : pop[id].trank > 0}, LAMBDA x, y : pop[x].trank < pop[y].trank)
+Candidates(pop) == VecOrder(pop)
+
+PosIn(s, id) == CHOOSE j \in 1..Len(s) : s[j] = id
+InSeq(s, id) == \E j \in 1..Len(s) : s[j] = id
+\* RRF score of id over two lists as an exact fraction <<num, den>> (positions are 0-based in the code)
+Rrf(l1, l2, id) ==
+  LET a == IF InSeq(l1, id) THEN 60 + PosIn(l1, id) - 1 ELSE 0
+      b == IF InSeq(l2, id) THEN 60 + PosIn(l2, id) - 1 ELSE 0
+  IN IF a > 0 /\ b > 0 THEN <<a + b, a * b>>
+     ELSE IF a > 0 THEN <<1, a>> ELSE <<1, b>>
+RrfBefore(l1, l2, x, y) ==
+  LET sx == Rrf(l1, l2, x) sy == Rrf(l1, l2, y)
+      lhs == sx[1] * sy[2] rhs == sy[1] * sx[2]       \* sx > sy  <=>  lhs > rhs
+  IN lhs > rhs \/ (lhs = rhs /\ x < y)
+RrfMerge(l1, l2) ==
+  SetToSortSeq({l1[j] : j \in 1..Len(l1)} \cup {l2[j] : j \in 1..Len(l2)},
+               LAMBDA x, y : RrfBefore(l1, l2, x, y))
+
+CandidatesOf(pop, limit, mode) ==
+  IF mode = "vec" THEN Take(VecOrder(pop), TopK(limit))
+  ELSE RrfMerge(Take(TxtOrder(pop), TopK(limit)), Take(VecOrder(pop), TopK(limit)))
+
+SearchPageOf(pop, sem, limit, mode) ==
+  IF EffSearchLimit(limit) = 0 THEN <<>>
+  ELSE Take(SelectSeq(CandidatesOf(pop, limit, mode), LAMBDA id : id \in sem), EffSearchLimit(limit))
 SearchFull(pop, sem) == SelectSeq(Candidates(pop), LAMBDA id : id \in sem)
-SearchPage(pop, flt, limit) == Take(SearchFull(pop, Sem(flt, pop)), EffSearchLimit(limit))
+SearchPage(pop, flt, limit) == SearchPageOf(pop, Sem(flt, pop), limit, "vec")
 
 ---------------------------------------------------------------------------
 (* Laws the oracle must satisfy itself (checked by TLC on every enumerated *)
